@@ -8,6 +8,7 @@ quoting / multi-line value / trailing comment) satisfying the lexical predicate 
 `denote [] items`, the sequence of (full dotted key, value) assignments.
 -/
 import DuneVerif.Proofs.C12Render
+import DuneVerif.Proofs.C12Compat
 import DuneVerif.Proofs.C12Lex
 import DuneVerif.Proofs.C12Opt
 
@@ -224,6 +225,42 @@ example : parseINI "x = new\ny = 2".toList (.node [("x".toList, "old".toList)] [
     .ok (.node [("x".toList, "new".toList), ("y".toList, "2".toList)] []) := by rfl
 example : NoLeafClash false [("x".toList, "new".toList)] ⟨[], [], .node [("x".toList, "old".toList)] []⟩ := by
   simp [NoLeafClash, leafClash, comps, splitOnC, aHas]
+
+/-- **overwrite_flag_spec, two sources, static hypothesis.**  Read `items₀` into an empty tree, then `items` with
+    the flag `ow`.  If no key of the two documents is a proper dotted prefix of another one, then for every key
+    `q`: with `overwrite` the second document wins, without it the first one wins, and a key mentioned by only one
+    of them has that document's value. -/
+theorem overwrite_flag_two_sources (items₀ items : List Item) (h₀ : ∀ it ∈ items₀, it.wf = true)
+    (h₁ : ∀ it ∈ items, it.wf = true) (ow : Bool) (t₀ t' : Tree)
+    (hc : Compat (keyPaths (denote [] items₀) ++ keyPaths (denote [] items)))
+    (hp₀ : parseINI (renderDoc items₀) .empty true = .ok t₀) (hp : parseINI (renderDoc items) t₀ ow = .ok t') (q : Str) :
+    t'.get? q =
+      if ow then (aGet? q (denote [] items)).or (aGet? q (denote [] items₀))
+      else (aGet? q (denote [] items₀)).or (aGet? q (denote [] items)) := by
+  have hc₀ : Compat ([] ++ keyPaths (denote [] items₀)) := by
+    intro a ha b hb
+    exact hc a (by simp at ha; simp [ha]) b (by simp at hb; simp [hb])
+  have hn₀ := noLeafClash_of_compat true (denote [] items₀) ⟨[], [], .empty⟩ [] (groupsBelow_empty _) hc₀
+  have hget₀ := overwrite_flag_spec items₀ h₀ .empty t₀ true hp₀ hn₀
+  have hgb : GroupsBelow (keyPaths (denote [] items₀)) t₀ := by
+    rw [parseINI_renderDoc items₀ h₀] at hp₀
+    cases ha : applyAll true (denote [] items₀) ⟨[], [], .empty⟩ with
+    | error e => rw [ha] at hp₀; simp at hp₀
+    | ok st =>
+      rw [ha, andThen_ok] at hp₀
+      injection hp₀ with hp₀
+      have := groupsBelow_applyAll true _ _ st [] (groupsBelow_empty _) ha
+      rw [hp₀] at this
+      simpa using this
+  have hn := noLeafClash_of_compat ow (denote [] items) ⟨[], [], t₀⟩ _ hgb hc
+  rw [overwrite_flag_spec items h₁ t₀ t' ow hp hn q, hget₀ q]
+  have he : Tree.empty.get? q = none := getPath_empty _
+  simp [he]
+
+example : Compat (keyPaths [("a.b".toList, []), ("a.c".toList, []), ("d".toList, [])]) := by
+  intro a ha b hb
+  simp [keyPaths, comps, splitOnC] at ha hb
+  rcases ha with rfl | rfl | rfl <;> rcases hb with rfl | rfl | rfl <;> (rintro ⟨c, hc, h⟩; simp at h <;> simp_all)
 
 /-- **parse_total.**  The model parser terminates on every byte string: the fuel of the line loop
     (`number of lines + 1`; the quote loop consumes lines) is never exhausted -/
